@@ -480,7 +480,8 @@ def run_rust_hidden(tier, prefix, opcode):
     code = ([prefix] if prefix is not None else []) + [opcode] + [B(f"b{i}", 8) for i in range(1, 6)] + [0] * 8
     extra = {20 + i: z3.ZeroExt(8, B(f"h_temp{i}", 24)) for i in range(14)}
     extra.update({34: B("h_depth", 32), 35: B("h_sub", 32), 36: z3.ZeroExt(12, B("h_frame_dest", 20)), 37: z3.ZeroExt(24, B("h_frame_bits", 8)),
-                  38: z3.ZeroExt(12, B("h_page", 20)), 39: z3.ZeroExt(30, B("h_have", 2))})
+                  38: z3.ZeroExt(12, B("h_page", 20)), 39: z3.ZeroExt(30, B("h_have", 2)),
+                  45: z3.ZeroExt(31, B("h_stale_fc", 1)), 46: z3.ZeroExt(31, B("h_stale_fz", 1))})
     N = 2 if tier == "quick" else 3
     assumptions = [z3.ULE(B("r_I", 16), N)]
     runs = {}
@@ -640,7 +641,7 @@ def main(tier):
         "decided_syntactically": tot["syntactic"], "inconclusive": n_incon,
         "rule": "one class per (prefix, opcode, length) with all hidden state symbolic + process-history pairs (Y after X) + stepper/in-place pairs; distinct = distinct mnemonics / pair ids",
         "samples": samples[:12], "solver_time_s": round(solver_time, 2), "inconclusive_details": inconcl[:10],
-        "functions_encoded": ["Rust (LLVM IR): LlamaExecutor::execute after LlamaState::set_reg(Temp(0..13)), set_call_depth, set_call_sub_level, push_call_frame, push_call_page with symbolic values (harness_execute_hidden)",
+        "functions_encoded": ["Rust (LLVM IR): LlamaExecutor::execute after LlamaState::set_reg(Temp(0..13)), set_call_depth, set_call_sub_level, push_call_frame, push_call_page and earlier individual FC/FZ writes with symbolic values (harness_execute_hidden)",
                               "Emulator.execute_instruction (TEMP0..13, call_sub_level, _last_pc, _current_pc symbolic)", "every lift in instr/instructions.py",
                               "CPUStepper.step, CPURegistersSnapshot, CPU facade (python backend)", "create_instruction/deepcopy of operand templates across emulator instances"],
         "bounds": {"history": "arbitrary hidden state before one instruction (subsumes arbitrary histories for the state they can leave behind); process history depth 1",
